@@ -1,5 +1,5 @@
 (* C04: merge2 refines the reference semantics [smp_spec] (Yaml/SmpSpec.v) at the level of typed JSON values
-   ([to_json]), on the fragment without associative lists and without "$patch: replace|merge". *)
+   ([to_json]), on the fragment without associative lists ("$patch: delete | replace | merge" at mapping level included). *)
 From KV Require Import Yaml.Walk Yaml.WalkProofs Yaml.WalkFields Yaml.WalkShape Yaml.SortUniq
      Yaml.Merge2 Yaml.Merge2Proofs Yaml.Merge2Frame Yaml.Merge2Idem Yaml.SmpSpec.
 Local Open Scope string_scope.
@@ -47,41 +47,124 @@ Proof.
 Qed.
 
 (* the functions smp_spec builds for the fields of a patch mapping *)
+Definition jstrip (el : bool) (l : list (string * json)) : list (string * json) :=
+  filter (fun kv => negb (jskip el (fst kv))) l.
+
 Definition spec_fs (pk : list (string * json)) : list (string * (option json -> option json)) :=
-  (fix go (l : list (string * json)) : list (string * (option json -> option json)) :=
-     match l with
-     | [] => []
-     | (k, v) :: r => (k, smp_spec v) :: go r
-     end) pk.
+  map (fun kv => (fst kv, smp_spec (snd kv))) pk.
 
 Lemma jassoc_spec_fs k pk : jassoc k (spec_fs pk) = option_map smp_spec (jfind k pk).
 Proof. induction pk as [|[k0 v0] t IH]; cbn; auto. destruct (String.eqb k0 k); auto. Qed.
 
 Lemma fst_spec_fs pk : map fst (spec_fs pk) = jkeys pk.
-Proof. induction pk as [|[k0 v0] t IH]; cbn; auto. f_equal; auto. Qed.
+Proof. unfold spec_fs, jkeys. rewrite map_map. reflexivity. Qed.
 
 Lemma smp_spec_obj pk tv :
-  jis_delete pk = false ->
+  jis_delete pk = false -> jdir_is "replace" pk = false ->
   smp_spec (JObj pk) tv = match tv with
-                          | Some (JObj tk) => Some (JObj (jmerge (spec_fs pk) tk))
+                          | Some (JObj tk) => Some (JObj (jmerge (spec_fs (jstrip (jelides pk) pk)) tk))
                           | _ => jadd (JObj pk)
                           end.
-Proof. intros H. cbn [smp_spec]. rewrite H. reflexivity. Qed.
+Proof.
+  intros H Hr. cbn [smp_spec]. rewrite H, Hr. cbv zeta.
+  destruct tv as [[| tk |]|]; try reflexivity. f_equal. f_equal. f_equal.
+  generalize (jelides pk). intros el. clear. induction pk as [|[k v] t IH]; [reflexivity|].
+  cbn [jstrip filter fst]. destruct (jskip el k); cbn [negb]; [exact IH|].
+  cbn [spec_fs map fst snd]. f_equal. exact IH.
+Qed.
+
+Lemma smp_spec_replace pk tv :
+  jis_delete pk = false -> jdir_is "replace" pk = true -> smp_spec (JObj pk) tv = jadd (JObj pk).
+Proof. intros H Hr. cbn [smp_spec]. rewrite H, Hr. reflexivity. Qed.
 
 Definition jadd_kvs (l : list (string * json)) : list (string * json) :=
   flat_map (fun kv => jentry (fst kv) (jadd (snd kv))) l.
 Definition jnorm_kvs (l : list (string * json)) : list (string * json) :=
   flat_map (fun kv => jentry (fst kv) (jnorm (snd kv))) l.
 
-Lemma jadd_obj pk : jis_delete pk = false -> jadd (JObj pk) = Some (JObj (jadd_kvs pk)).
+Lemma jadd_obj pk : jis_delete pk = false -> jadd (JObj pk) = Some (JObj (jadd_kvs (jstrip (jelides pk) pk))).
 Proof.
   intros H. cbn [jadd]. rewrite H. f_equal. f_equal. unfold jadd_kvs. clear H.
-  induction pk as [|[k v] t IH]; cbn [flat_map fst snd]; auto. rewrite IH. reflexivity.
+  generalize (jelides pk). intros el.
+  induction pk as [|[k v] t IH]; [reflexivity|].
+  cbn [jstrip filter fst]. destruct (jskip el k); cbn [negb]; [exact IH|].
+  cbn [flat_map fst snd]. f_equal. exact IH.
 Qed.
 Lemma jnorm_obj tk : jnorm (JObj tk) = Some (JObj (jnorm_kvs tk)).
 Proof.
   cbn [jnorm]. f_equal. f_equal. unfold jnorm_kvs.
   induction tk as [|[k v] t IH]; cbn [flat_map fst snd]; auto. rewrite IH. reflexivity.
+Qed.
+
+Lemma jstrip_false l : jstrip false l = l.
+Proof. unfold jstrip, jskip. cbn [andb negb]. induction l; cbn; congruence. Qed.
+
+Lemma jdir_is_Jk d kvs :
+  jdir_is d (Jk kvs) = match find_field smp_key kvs with
+                       | Some (Scalar _ _ v) => String.eqb v d
+                       | _ => false
+                       end.
+Proof.
+  unfold jdir_is. change "$patch" with smp_key. rewrite jfind_Jk.
+  destruct (find_field smp_key kvs) as [[t s v| |]|]; reflexivity.
+Qed.
+
+Lemma Jk_remove_first k kvs :
+  nodupk kvs -> Jk (remove_first k kvs) = filter (fun kv => negb (String.eqb (fst kv) k)) (Jk kvs).
+Proof.
+  unfold nodupk. induction kvs as [|[k0 v0] t IH]; [reflexivity|]. intros H. inversion H as [|? ? Hn Hd]; subst.
+  cbn [remove_first Jk map filter fst]. destruct (String.eqb k0 k) eqn:E; cbn [negb].
+  - apply String.eqb_eq in E. subst. clear IH.
+    assert (G : forall l, ~ In k (keys l) -> Jk l = filter (fun kv => negb (String.eqb (fst kv) k)) (Jk l)).
+    { induction l as [|[k1 v1] l' IHl]; [reflexivity|]. intros Hk. cbn [Jk map filter fst].
+      destruct (String.eqb k1 k) eqn:E1; cbn [negb].
+      - apply String.eqb_eq in E1. subst. exfalso. apply Hk. left; reflexivity.
+      - f_equal. apply IHl. intros Hi. apply Hk. right; auto. }
+    apply G; auto.
+  - cbn [Jk map]. f_equal. apply IH; auto.
+Qed.
+
+(* a patch mapping of the fragment that is not "$patch: delete": its directive, its elided form, and their JSON views *)
+Lemma dir_cases_json pk :
+  wfk (Map pk) = true -> dirok (Map pk) = true -> is_delete pk = false ->
+  exists ps pk',
+    determine_smp (Some (Map pk)) = Ok (ps, Some (Map pk')) /\ (ps = SmpMerge \/ ps = SmpReplace) /\
+    find_field smp_key pk' = None /\ nodupk pk' /\
+    (forall k, ofrag wfk (find_field k pk') = true /\ ofrag dirok (find_field k pk') = true) /\
+    (forall e, In e pk' -> In e pk) /\
+    Jk pk' = jstrip (jelides (Jk pk)) (Jk pk) /\
+    jdir_is "replace" (Jk pk) = (match ps with SmpReplace => true | _ => false end).
+Proof.
+  intros Hw Hd Hdel. destruct (wfk_in _ Hw) as [Hnd Hwc]. destruct (dirok_in _ Hd Hdel) as [Hv Hdc].
+  unfold dirv in Hv. unfold is_delete in Hdel. cbn [determine_smp].
+  unfold jelides. rewrite !jdir_is_Jk.
+  destruct (find_field smp_key pk) as [x|] eqn:F.
+  - exists (if String.eqb (node_value x) "replace" then SmpReplace else SmpMerge), (remove_first smp_key pk).
+    split; [|split; [|split; [|split; [|split; [|split; [|split]]]]]].
+    + unfold smp_of_value. rewrite Hdel.
+      destruct (String.eqb (node_value x) "replace") eqn:E1; [reflexivity|].
+      cbn [orb] in Hv. rewrite Hv. reflexivity.
+    + destruct (String.eqb (node_value x) "replace"); auto.
+    + apply find_remove_first_nodup; auto.
+    + apply nodup_remove_first; auto.
+    + intros k. destruct (find_field k (remove_first smp_key pk)) eqn:Fk; cbn [ofrag]; auto.
+      apply find_field_In in Fk. apply in_remove_first in Fk. split; eauto.
+    + intros e. apply in_remove_first.
+    + rewrite Jk_remove_first by auto.
+      destruct x as [t s v| |]; cbn [node_value] in Hv |- *; try discriminate.
+      unfold jstrip, jskip. rewrite Hv. cbn [andb]. reflexivity.
+    + destruct x as [t s v| |]; cbn [node_value] in Hv |- *; try discriminate.
+      destruct (String.eqb v "replace"); reflexivity.
+  - exists SmpMerge, pk. split; [reflexivity|]. split; auto. split; auto. split; auto. split.
+    { intros k. destruct (find_field k pk) eqn:Fk; cbn [ofrag]; auto. apply find_field_In in Fk. split; eauto. }
+    split; auto. split; [|reflexivity]. cbn [orb]. rewrite jstrip_false. reflexivity.
+Qed.
+
+Lemma tagged_in kvs : tagged (Map kvs) = true -> forall k v, In (k, v) kvs -> tagged v = true.
+Proof.
+  cbn [tagged]. induction kvs as [|[k0 v0] t IH]; cbn; intros H k v F; [contradiction|].
+  apply Bool.andb_true_iff in H. destruct H as [Ha Hb].
+  destruct F as [F|F]; [inv F; auto|eauto].
 Qed.
 
 (* ---------- the JSON view of the exact shape of walkMap's loop ---------- *)
@@ -163,11 +246,13 @@ Section Refine.
   Lemma spec_core f sc0 alias' srcs d0 names pv d :
     (forall sc alias tv pv r,
         W f sc alias [tv; pv] = Ok r -> aliasing alias tv pv ->
-        ofrag wfk tv = true -> ofrag wfk pv = true -> ofrag nodir pv = true ->
+        ofrag wfk tv = true -> ofrag wfk pv = true -> ofrag dirok pv = true ->
         ofrag tagged tv = true -> ofrag tagged pv = true ->
         oJ (fval nonstr r tv) = spec_goal alias tv pv) ->
-    NoDup names -> wfk (Map d0) = true -> tagged (Map d0) = true ->
-    plain_patch pv -> ofrag wfk pv = true -> ofrag nodir pv = true -> ofrag tagged pv = true ->
+    NoDup names -> nodupk d0 ->
+    (forall k, ofrag wfk (find_field k d0) = true /\ ofrag tagged (find_field k d0) = true) ->
+    (forall k, ofrag wfk (field_of k pv) = true /\ ofrag dirok (field_of k pv) = true /\
+               ofrag tagged (field_of k pv) = true) ->
     (forall k, fvs alias' srcs k (find_field k d0) = [find_field k d0; field_of k pv] /\
                aliasing alias' (find_field k d0) (field_of k pv)) ->
     walk_fields sch nonstr (W f) sc0 alias' srcs names (Map d0) = Ok d ->
@@ -178,26 +263,16 @@ Section Refine.
                           else [(fst kv, to_json (snd kv))]) d0
       ++ flat_map (fun k => if str_in k (keys d0) then [] else jentry k (spec_goal alias' None (field_of k pv))) names.
   Proof.
-    intros IH Hnd Hwf Htg Hplain Hwp Hnp Htp Hfv Hw.
-    destruct (wfk_map _ Hwf) as [Hnk Hsub].
+    intros IH Hnd Hnk Hsub Hpsub Hfv Hw.
     destruct (walk_fields_shape_inv sch nonstr _ _ _ _ names Hnd _ _ Hnk Hw) as [R [HR ->]].
     eexists. split; [reflexivity|].
-    assert (Hpsub : forall k, ofrag wfk (field_of k pv) = true /\ ofrag nodir (field_of k pv) = true /\
-                              ofrag tagged (field_of k pv) = true).
-    { intros k. destruct pv as [[| pk |]|]; cbn [field_of]; try (repeat split; reflexivity).
-      cbn [ofrag] in Hwp, Hnp, Htp. destruct (wfk_map _ Hwp) as [_ H1].
-      assert (Hnd0 : is_delete pk = false) by (unfold is_delete; cbn in Hplain; rewrite Hplain; reflexivity).
-      destruct (nodir_map _ Hnp Hnd0) as [_ H2].
-      repeat split; apply ofrag_field; auto. apply tagged_map; auto. }
     rewrite (Jk_shape nonstr names R d0
                (fun k tvj => match alias' with
                              | None => smp_field (oJ (field_of k pv)) tvj
                              | Some _ => match oJ (field_of k pv) with Some p => jadd p | None => None end
                              end)); auto.
     intros k Hk. specialize (HR k Hk). destruct (Hfv k) as [Efv Hal]. rewrite Efv in HR.
-    destruct (Hpsub k) as [Hp1 [Hp2 Hp3]].
-    assert (Ht1 : ofrag wfk (find_field k d0) = true) by (apply ofrag_field; auto).
-    assert (Ht2 : ofrag tagged (find_field k d0) = true) by (apply ofrag_field; apply tagged_map; auto).
+    destruct (Hpsub k) as [Hp1 [Hp2 Hp3]]. destruct (Hsub k) as [Ht1 Ht2].
     rewrite (IH _ _ _ _ _ HR Hal Ht1 Hp1 Hp2 Ht2 Hp3). unfold spec_goal. destruct alias'; reflexivity.
   Qed.
 
@@ -229,9 +304,15 @@ Section Refine.
     rewrite (find_of_in pk Hnd kv Hin). reflexivity.
   Qed.
 
+  Lemma sub_of_map kvs : wfk (Map kvs) = true -> tagged (Map kvs) = true ->
+    forall k, ofrag wfk (find_field k kvs) = true /\ ofrag tagged (find_field k kvs) = true.
+  Proof.
+    intros Hw Ht k. destruct (wfk_map _ Hw) as [_ H1]. split; apply ofrag_field; auto. apply tagged_map; auto.
+  Qed.
+
   Lemma refine_walk f : forall sc alias tv pv r,
       W f sc alias [tv; pv] = Ok r -> aliasing alias tv pv ->
-      ofrag wfk tv = true -> ofrag wfk pv = true -> ofrag nodir pv = true ->
+      ofrag wfk tv = true -> ofrag wfk pv = true -> ofrag dirok pv = true ->
       ofrag tagged tv = true -> ofrag tagged pv = true ->
       oJ (fval nonstr r tv) = spec_goal alias tv pv.
   Proof.
@@ -251,73 +332,89 @@ Section Refine.
       { rewrite (delete_patch_clears sch opts nonstr _ _ _ _ _ _ Ha Ed H).
         unfold spec_goal, smp_field, oJ. cbn [option_map]. rewrite to_json_map.
         destruct Ha as [-> | ->]; cbn [smp_spec jadd]; rewrite jis_delete_Jk, Ed; reflexivity. }
-      destruct (nodir_map _ Hnp Ed) as [Hpp _].
-      assert (Hplain : plain_patch (Some (Map pk))) by exact Hpp.
+      destruct (dir_cases_json pk Hwp Hnp Ed) as [dps [pk' [Hdet [Hps [Hpp [Hnk' [Hch [Hin' [EJ Erep]]]]]]]]].
       assert (Hjd : jis_delete (Jk pk) = false) by (rewrite jis_delete_Jk; auto).
-      destruct (wfk_map _ Hwp) as [Hnkp _].
+      (* the JSON side, in terms of the elided mapping *)
+      assert (Jadd : jadd (JObj (Jk pk)) = Some (JObj (jadd_kvs (Jk pk')))).
+      { rewrite jadd_obj by auto. rewrite EJ. reflexivity. }
+      assert (Hpsub : forall k, ofrag wfk (field_of k (Some (Map pk'))) = true /\
+                                ofrag dirok (field_of k (Some (Map pk'))) = true /\
+                                ofrag tagged (field_of k (Some (Map pk'))) = true).
+      { intros k. cbn [field_of]. destruct (Hch k) as [C1 C2]. split; auto. split; auto.
+        destruct (find_field k pk') eqn:Fk; cbn [ofrag]; auto.
+        apply find_field_In in Fk. apply Hin' in Fk. eapply tagged_in; eauto. }
+      assert (Hsubp : forall k, ofrag wfk (find_field k pk') = true /\ ofrag tagged (find_field k pk') = true).
+      { intros k. destruct (Hpsub k) as [C1 [_ C3]]. cbn [field_of] in C1, C3. auto. }
+      (* the patch mapping itself becomes the walked destination: added, replacing or aliased *)
+      assert (Hself : forall sc0 a b d,
+                 walk_fields sch nonstr (W f) sc0 (Some 1) [a; b]
+                             (field_names [Some (Map pk'); Some (Map pk')]) (Map pk') = Ok d ->
+                 exists kvs', d = Map kvs' /\ Jk kvs' = jadd_kvs (Jk pk')).
+      { intros sc0 a b d Ew.
+        eapply (spec_core f _ (Some 1) _ pk' _ (Some (Map pk')) d IH) in Ew;
+          [ | apply nodup_sort_uniq | exact Hnk' | exact Hsubp | exact Hpsub
+            | intros k; rewrite fvs_alias1; split; [reflexivity|]; right; split; reflexivity ].
+        destruct Ew as [kvs' [-> Ej]]. exists kvs'. split; auto.
+        rewrite added_shape in Ej; auto; [apply names_dup|intros kv Hin; apply str_in_names_dest; auto]. }
       destruct tv as [[tt ts tx| tk |tes]|].
       + destruct (is_null (Scalar tt ts tx)) eqn:En.
         2:{ exfalso. destruct tt; try discriminate; destruct Ha as [-> | ->]; cbn in H; discriminate. }
         assert (alias = None) as -> by (destruct Hal as [|[_ E]]; auto; discriminate).
-        rewrite (level_add sch opts nonstr) in H by auto.
+        rewrite (dlevel_add sch opts nonstr f sc _ pk dps pk') in H by auto.
         match type of H with bind ?X _ = _ => destruct X as [d| | |] eqn:Ew; cbn in H; try discriminate end.
-        inv H.
-        eapply (spec_core f _ (Some 1) _ pk _ (Some (Map pk)) d IH) in Ew;
-          [ | apply nodup_sort_uniq | exact Hwp | exact Htp | exact Hplain | exact Hwp | exact Hnp | exact Htp
-            | intros k; rewrite fvs_alias1; split; [reflexivity|]; right; split; reflexivity ].
-        destruct Ew as [kvs' [-> Ej]].
-        rewrite added_shape in Ej; auto; [|apply names_dup|intros kv Hin; apply str_in_names_dest; auto].
+        inv H. destruct (Hself _ _ _ _ Ew) as [kvs' [-> Ej]].
         destruct tt; try discriminate.
         cbn [fval w_node w_keep w_inplace is_null andb with_style style_of oJ option_map].
         rewrite to_json_map, Ej. unfold spec_goal, smp_field, oJ. cbn [option_map]. rewrite to_json_map.
-        rewrite smp_spec_obj by auto. cbn [to_json]. rewrite jadd_obj by auto. reflexivity.
+        destruct Hps as [-> | ->].
+        * rewrite smp_spec_obj by auto. cbn [to_json]. rewrite Jadd. reflexivity.
+        * rewrite smp_spec_replace by auto. rewrite Jadd. reflexivity.
       + destruct Hal as [-> | [-> E]].
-        * rewrite (level_merge sch opts nonstr) in H by auto.
+        * destruct Hps as [-> | ->].
+          -- rewrite (dlevel_merge sch opts nonstr f sc tk pk pk' Hdet) in H.
+             match type of H with bind ?X _ = _ => destruct X as [d| | |] eqn:Ew; cbn in H; try discriminate end.
+             inv H. destruct (wfk_map _ Hwt) as [Hnkt _].
+             eapply (spec_core f _ None _ tk _ (Some (Map pk')) d IH) in Ew;
+               [ | apply nodup_sort_uniq | exact Hnkt | apply sub_of_map; auto | exact Hpsub
+                 | intros k; rewrite fvs_none; split; [reflexivity|left; reflexivity] ].
+             destruct Ew as [kvs' [-> Ej]].
+             cbn [fval w_node w_keep w_inplace is_null andb quote11 oJ option_map].
+             rewrite to_json_map, Ej. unfold spec_goal, smp_field, oJ. cbn [option_map]. rewrite !to_json_map.
+             rewrite smp_spec_obj by auto. rewrite <- EJ. f_equal. f_equal. unfold jmerge. f_equal.
+             ++ change (Jk tk) with (map (fun kv : string * node => (fst kv, to_json (snd kv))) tk).
+                rewrite flat_map_map. apply flat_map_ext_in. intros kv Hin.
+                rewrite (str_in_names_dest tk (Some (Map pk')) kv Hin). cbn [fst snd].
+                rewrite jassoc_spec_fs, jfind_Jk. unfold spec_goal, smp_field, oJ. cbn [field_of option_map].
+                destruct (find_field (fst kv) pk'); reflexivity.
+             ++ rewrite fst_spec_fs, !jkeys_Jk.
+                replace (field_names [Some (Map tk); Some (Map pk')]) with (sort_uniq (keys tk ++ keys pk'))
+                  by (unfold field_names; cbn; rewrite app_nil_r; reflexivity).
+                apply flat_map_ext_in. intros k Hk.
+                destruct (str_in k (keys tk)); [reflexivity|].
+                rewrite jassoc_spec_fs, jfind_Jk. unfold spec_goal, smp_field, oJ. cbn [field_of option_map].
+                destruct (find_field k pk'); reflexivity.
+          -- rewrite (dlevel_repl sch opts nonstr f sc tk pk pk' Hdet) in H.
+             match type of H with bind ?X _ = _ => destruct X as [d| | |] eqn:Ew; cbn in H; try discriminate end.
+             inv H. destruct (Hself _ _ _ _ Ew) as [kvs' [-> Ej]].
+             cbn [fval w_node w_keep w_inplace is_null andb with_style style_of oJ option_map].
+             rewrite to_json_map, Ej. unfold spec_goal, smp_field, oJ. cbn [option_map]. rewrite !to_json_map.
+             rewrite smp_spec_replace by auto. rewrite Jadd. reflexivity.
+        * inv E. rewrite (dlevel_dup sch opts nonstr f sc pk dps pk') in H by auto.
           match type of H with bind ?X _ = _ => destruct X as [d| | |] eqn:Ew; cbn in H; try discriminate end.
-          inv H.
-          eapply (spec_core f _ None _ tk _ (Some (Map pk)) d IH) in Ew;
-            [ | apply nodup_sort_uniq | exact Hwt | exact Htt | exact Hplain | exact Hwp | exact Hnp | exact Htp
-              | intros k; rewrite fvs_none; split; [reflexivity|left; reflexivity] ].
-          destruct Ew as [kvs' [-> Ej]].
-          cbn [fval w_node w_keep w_inplace is_null andb quote11 oJ option_map].
-          rewrite to_json_map, Ej. unfold spec_goal, smp_field, oJ. cbn [option_map]. rewrite !to_json_map.
-          rewrite smp_spec_obj by auto. f_equal. f_equal. unfold jmerge. f_equal.
-          -- change (Jk tk) with (map (fun kv : string * node => (fst kv, to_json (snd kv))) tk).
-             rewrite flat_map_map. apply flat_map_ext_in. intros kv Hin.
-             rewrite (str_in_names_dest tk (Some (Map pk)) kv Hin). cbn [fst snd].
-             rewrite jassoc_spec_fs, jfind_Jk. unfold spec_goal, smp_field, oJ. cbn [field_of option_map].
-             destruct (find_field (fst kv) pk); reflexivity.
-          -- rewrite fst_spec_fs, !jkeys_Jk.
-             replace (field_names [Some (Map tk); Some (Map pk)]) with (sort_uniq (keys tk ++ keys pk))
-               by (unfold field_names; cbn; rewrite app_nil_r; reflexivity).
-             apply flat_map_ext_in. intros k Hk.
-             destruct (str_in k (keys tk)); [reflexivity|].
-             rewrite jassoc_spec_fs, jfind_Jk. unfold spec_goal, smp_field, oJ. cbn [field_of option_map].
-             destruct (find_field k pk); reflexivity.
-        * inv E. rewrite (level_dup sch opts nonstr) in H by auto.
-          match type of H with bind ?X _ = _ => destruct X as [d| | |] eqn:Ew; cbn in H; try discriminate end.
-          inv H.
-          eapply (spec_core f _ (Some 1) _ pk _ (Some (Map pk)) d IH) in Ew;
-            [ | apply nodup_sort_uniq | exact Hwp | exact Htp | exact Hplain | exact Hwp | exact Hnp | exact Htp
-              | intros k; rewrite fvs_alias1; split; [reflexivity|]; right; split; reflexivity ].
-          destruct Ew as [kvs' [-> Ej]].
-          rewrite added_shape in Ej; auto; [|apply names_dup|intros kv Hin; apply str_in_names_dest; auto].
+          inv H. destruct (Hself _ _ _ _ Ew) as [kvs' [-> Ej]].
           cbn [fval w_node w_keep w_inplace is_null andb quote11 oJ option_map].
           rewrite to_json_map, Ej. unfold spec_goal, oJ. cbn [option_map]. rewrite to_json_map.
-          rewrite jadd_obj by auto. reflexivity.
+          rewrite Jadd. reflexivity.
       + exfalso. destruct Ha as [-> | ->]; cbn in H; discriminate.
       + assert (alias = None) as -> by (destruct Hal as [|[_ E]]; auto; discriminate).
-        rewrite (level_add sch opts nonstr) in H by auto.
+        rewrite (dlevel_add sch opts nonstr f sc _ pk dps pk') in H by auto.
         match type of H with bind ?X _ = _ => destruct X as [d| | |] eqn:Ew; cbn in H; try discriminate end.
-        inv H.
-        eapply (spec_core f _ (Some 1) _ pk _ (Some (Map pk)) d IH) in Ew;
-          [ | apply nodup_sort_uniq | exact Hwp | exact Htp | exact Hplain | exact Hwp | exact Hnp | exact Htp
-            | intros k; rewrite fvs_alias1; split; [reflexivity|]; right; split; reflexivity ].
-        destruct Ew as [kvs' [-> Ej]].
-        rewrite added_shape in Ej; auto; [|apply names_dup|intros kv Hin; apply str_in_names_dest; auto].
+        inv H. destruct (Hself _ _ _ _ Ew) as [kvs' [-> Ej]].
         cbn [fval w_node w_keep w_inplace is_null andb quote11 oJ option_map].
         rewrite to_json_map, Ej. unfold spec_goal, smp_field, oJ. cbn [option_map]. rewrite to_json_map.
-        rewrite smp_spec_obj by auto. rewrite jadd_obj by auto. reflexivity.
+        destruct Hps as [-> | ->].
+        * rewrite smp_spec_obj by auto. rewrite Jadd. reflexivity.
+        * rewrite smp_spec_replace by auto. rewrite Jadd. reflexivity.
     - (* list in the patch *)
       rewrite (seq_patch sch opts nonstr Hatomic _ _ _ _ _ _ Ha H). destruct Ha as [-> | ->]; reflexivity.
     - (* nothing in the patch *)
@@ -334,8 +431,9 @@ Section Refine.
         rewrite (level_merge sch opts nonstr) in H by exact I.
         match type of H with bind ?X _ = _ => destruct X as [d| | |] eqn:Ew; cbn in H; try discriminate end.
         inv H.
+        destruct (wfk_map _ Hwt) as [Hnkt _].
         eapply (spec_core f _ None _ tk _ None d IH) in Ew;
-          [ | apply nodup_sort_uniq | exact Hwt | exact Htt | exact I | exact eq_refl | exact eq_refl | exact eq_refl
+          [ | apply nodup_sort_uniq | exact Hnkt | apply sub_of_map; auto | intros k; repeat split
             | intros k; rewrite fvs_none; split; [reflexivity|left; reflexivity] ].
         destruct Ew as [kvs' [-> Ej]].
         cbn [fval w_node w_keep w_inplace is_null andb quote11 oJ option_map].
@@ -353,7 +451,7 @@ Section Refine.
   Qed.
 End Refine.
 
-Definition spec_fragment (p t : node) : bool := idem_fragment p t && tagged p && tagged t.
+Definition spec_fragment (p t : node) : bool := idem_fragment_dir p t && tagged p && tagged t.
 
 Section RefineTop.
   Context {Sc : Type}.
@@ -367,7 +465,7 @@ Section RefineTop.
     merge2 sch opts nonstr (Some p) (Some t) = Ok (Some r) ->
     Some (to_json r) = smp_spec (to_json p) (Some (to_json t)).
   Proof.
-    unfold spec_fragment, idem_fragment. intros Hf H.
+    unfold spec_fragment, idem_fragment_dir. intros Hf H.
     repeat rewrite Bool.andb_true_iff in Hf. destruct Hf as [[[[[[[Hmp Hmt] Hwt] Hwp] Hnp] Hdel] Htp] Htt].
     destruct p as [| pk |]; try discriminate. destruct t as [| tk |]; try discriminate.
     unfold merge2, walk_top in H.
@@ -376,13 +474,23 @@ Section RefineTop.
     inv H.
     pose proof (refine_walk sch opts nonstr Hatomic _ _ _ _ _ _ E (or_introl eq_refl) Hwt Hwp Hnp Htt Htp) as Hr.
     apply Bool.negb_true_iff in Hdel.
-    assert (Hpp : plain_patch (Some (Map pk))) by (destruct (nodir_map _ Hnp Hdel); auto).
-    unfold fuel_of in E. rewrite (level_merge sch opts nonstr) in E by auto.
-    match type of E with bind ?X _ = _ => destruct X as [d| | |] eqn:Ew; cbn [bind] in E; try discriminate end.
-    inv E. cbn in H1. inv H1.
+    destruct (dir_cases pk Hwp Hnp Hdel) as [dps [pk' [Hdet [Hps [Hpp [Hnk' Hch]]]]]].
     destruct (wfk_map _ Hwt) as [Hnk _].
-    destruct (walk_fields_map sch nonstr _ _ _ _ _ (nodup_sort_uniq _) _ _ Hnk Ew) as [kvs' [-> _]].
-    cbn [fval w_node w_keep w_inplace is_null andb quote11 oJ option_map] in Hr.
+    assert (Hm : exists kvs', r = Map kvs' /\ fval nonstr ro (Some (Map tk)) = Some (Map kvs')).
+    { unfold fuel_of in E.
+      set (n0 := fold_right (fun (s : option node) (a : nat) => depth_o s + a) 0 [Some (Map tk); Some (Map pk)]) in E.
+      destruct Hps as [-> | ->].
+      - rewrite (dlevel_merge sch opts nonstr n0 None tk pk pk' Hdet) in E.
+        match type of E with bind ?X _ = _ => destruct X as [d| | |] eqn:Ew; cbn [bind] in E; try discriminate end.
+        inv E. cbn in H1. inv H1.
+        destruct (walk_fields_map sch nonstr _ _ _ _ _ (nodup_sort_uniq _) _ _ Hnk Ew) as [kvs' [-> _]].
+        exists kvs'. split; reflexivity.
+      - rewrite (dlevel_repl sch opts nonstr n0 None tk pk pk' Hdet) in E.
+        match type of E with bind ?X _ = _ => destruct X as [d| | |] eqn:Ew; cbn [bind] in E; try discriminate end.
+        inv E. cbn in H1. inv H1.
+        destruct (walk_fields_map sch nonstr _ _ _ _ _ (nodup_sort_uniq _) _ _ Hnk' Ew) as [kvs' [-> _]].
+        exists kvs'. split; reflexivity. }
+    destruct Hm as [kvs' [-> Hfv]]. rewrite Hfv in Hr.
     unfold spec_goal, smp_field, oJ in Hr. cbn [option_map] in Hr. exact Hr.
   Qed.
 End RefineTop.
@@ -397,5 +505,17 @@ Example refines_example :
                         ("spec", JObj [("b", JAtom TStr false "no");
                                        ("m", JObj [("x", JAtom TStr false "7"); ("y", JAtom TInt false "2")]);
                                        ("l", JArr [JAtom TStr false "q"; JAtom TStr false "r"]);
+                                       ("n", JObj [("k", JAtom TBool false "true")])])]).
+Proof. split; [reflexivity|]. eexists. split; [vm_compute; reflexivity|]. split; vm_compute; reflexivity. Qed.
+
+(* non-vacuity for the directives, on the documents of the idempotence example with directives *)
+Example refines_dir_example :
+  spec_fragment idem_dir_p idem_dir_t = true /\
+  exists r, merge2 schemaless kustomize_opts (fun s => String.eqb s "no") (Some idem_dir_p) (Some idem_dir_t) = Ok (Some r) /\
+            Some (to_json r) = smp_spec (to_json idem_dir_p) (Some (to_json idem_dir_t)) /\
+            smp_spec (to_json idem_dir_p) (Some (to_json idem_dir_t)) =
+            Some (JObj [("kind", JAtom TStr false "Foo");
+                        ("spec", JObj [("m", JObj [("x", JAtom TStr false "7")]);
+                                       ("g", JObj [("u", JAtom TInt false "5"); ("v", JAtom TStr false "no")]);
                                        ("n", JObj [("k", JAtom TBool false "true")])])]).
 Proof. split; [reflexivity|]. eexists. split; [vm_compute; reflexivity|]. split; vm_compute; reflexivity. Qed.
